@@ -38,6 +38,17 @@ Theorem C19_no_post_lost_newest_first :
   forall ps t, board_after ps t = concat (rev ps) ++ t.
 Proof. exact board_after_app. Qed.
 
+(* ... so every post made in the history is still in the final board, whole and contiguous *)
+Theorem C19_every_post_is_kept_whole :
+  forall (capf : nat -> nat), (forall n, (0 < capf n)%nat) -> forall h s p,
+    In p (posts_of h) -> exists a b, s_data (fst (cs_run capf s h)) = a ++ p ++ b.
+Proof.
+  intros capf Hc h s p Hin. pose proof (cs_run_spec capf Hc h s) as H.
+  destruct (cs_run capf s h) as [s' outs]. destruct H as [_ [Hd _]]. cbn [fst]. rewrite Hd, board_after_app.
+  apply in_rev in Hin. apply in_split in Hin as [l1 [l2 E]]. rewrite E, concat_app. cbn [concat].
+  exists (concat l1), (concat l2 ++ s_data s). now rewrite <- !app_assoc.
+Qed.
+
 (* Why the lock is needed: with the store's own per-call mutex only, two readers' steps interleave and one of them
    returns a wrong text (3-byte board, 2-byte chunks) *)
 Theorem C19_unlocked_cursor_refuted : torn_witness = true.
@@ -59,3 +70,4 @@ Print Assumptions C19_every_history.
 Print Assumptions C19_no_post_lost_newest_first.
 Print Assumptions C19_unlocked_cursor_refuted.
 Print Assumptions C19_post_has_no_line_feed.
+Print Assumptions C19_every_post_is_kept_whole.
